@@ -247,6 +247,38 @@ def p1(R):
     lits = {(t, p) for (t, p, _) in guards_of(g, sn2)}
     R.ob('C02.P1b', 'the coroutine is resumed only when the terminator was found', (idx + ' == -1', False) in lits,
          'send under %s' % sorted(lits)[:6], func=f, node=sc2)
+    # the arm taken while the terminator has not arrived rejects nothing that the arm taken when it has arrived accepts:
+    # the same header delivered in one read never reaches the first arm, so any verdict (an exception thrown into the
+    # coroutine) that only that arm can reach makes the outcome depend on the cut
+    tests = [(t, found_polarity(R, g, t, idx)) for t in arm2 if t.kind == 'test']
+    tests = [(t, lab) for (t, lab) in tests if lab is not None]
+    if tests:
+        t0, nf_lab = tests[0]
+        f_lab = 'false' if nf_lab == 'true' else 'true'
+        nf_arm = g.reachable(succs(t0, nf_lab), avoid={head, t0})       # handlers of the arm's statements included
+        f_arm = g.reachable(succs(t0, f_lab), avoid={head, t0})
+
+        def rejections(nodes):
+            out = []
+            for n_ in nodes:
+                for c_ in n_.calls:
+                    if isinstance(c_.func, ast.Attribute) and c_.func.attr == 'throw':
+                        out.append(U(c_)[:50])
+                    else:
+                        for t_ in R.types.call_targets(c_, g.ctx):
+                            if t_.kind == 'func' and any(isinstance(x, ast.Call) and isinstance(x.func, ast.Attribute)
+                                                         and x.func.attr == 'throw' for x in own_nodes(t_.func.node)):
+                                out.append(U(c_.func))
+            return sorted(out)
+        rn, rf = rejections(set(nf_arm) - set(f_arm)), rejections(set(f_arm) - set(nf_arm))
+        extra = list(rn)
+        for x in rf:
+            if x in extra:
+                extra.remove(x)
+        R.ob('C02.P1b', 'nothing is rejected only while the terminator is still missing', not extra,
+             'the branch for "terminator not found yet" can reject the input through %s, the branch for "found" cannot: a '
+             'header block that arrives whole is accepted, the same bytes cut inside the block are refused' % extra,
+             func=f, node=t0.ast, construct='read-until arms reject alike')
     # ---------------- P1c
     for c in clears:
         preds = [p for (p, l) in c.pred if not l.startswith('exc:')]
